@@ -152,6 +152,20 @@ def _disk(info, path):
     return bool(a) or (threaded and bool(b))
 
 
+def _iter(info, path):
+    vec = os.path.join(path, 'vectors.txt')
+    if not os.path.exists(vec): return None
+    lib = c.build_lib(); exe = c.build_driver('iter', lib, shim=True)
+    d = c.scratch('itr'); res = os.path.join(d, 'res.txt')
+    p = c.sh([exe, vec, res, os.path.join(d, 'db')], timeout=600)
+    if p.returncode != 0:
+        print('code side: the real iterators abort on the stored vectors (exit %s)' % p.returncode); c.rmtree(d); return True
+    fails = [l for l in open(res).read().split('\n') if l.startswith('F ')]
+    print('code side: stored vectors on the current tree: %d disagree with Iter.tla%s' % (len(fails), (' e.g. ' + fails[0]) if fails else ''))
+    c.rmtree(d)
+    return bool(fails)
+
+
 def run(path):
     path = os.path.abspath(path)
     jp = os.path.join(path, 'replay.json')
@@ -170,6 +184,7 @@ def run(path):
         elif kind == 'conc' and prop in ('C04', 'C08', 'C09'): code = _conc(info, path)
         elif kind == 'life' and 'steps' in info: code = _life(info, path)
         elif kind == 'disk': code = _disk(info, path)
+        elif kind == 'iter': code = _iter(info, path)
     except c.Broken as b:
         print('code side: could not be re-run: %s' % b)
     if code is None:
